@@ -27,6 +27,10 @@ REWRITES = [
      r"if \(etl::tuple\(index\(vs\)\.\.\.\) == etl::tuple\(Is\.\.\.\)\)",
      r"if (etl::tuple<decltype(index(vs))...>(index(vs)...) == etl::tuple<decltype(Is)...>(Is...))",
      r"etl::tuple<decltype\(index\(vs\)\)\.\.\.>"),
+    ("etl/_tuple/tuple_cat.hpp",
+     r"return etl::tuple\{get<Is>\(etl::forward<Result>\(result\)\)\.\.\.\};",
+     r"return etl::tuple<etl::decay_t<decltype(get<Is>(etl::forward<Result>(result)))>...>{get<Is>(etl::forward<Result>(result))...};",
+     r"etl::tuple<etl::decay_t<decltype\(get<Is>"),
     ("etl/_tuple/tuple.hpp",
      r"auto get_type\(etl::index_constant<I> ic\) -> decltype\(_impl\.get_type\(ic\)\);",
      r"auto get_type(etl::index_constant<I> ic) -> decltype(etl::declval<etl::conditional_t<(I < 0xffffffff), decltype(_impl)&, void>>().get_type(ic));",
